@@ -5,6 +5,9 @@ package absnfs
 import (
 	"fmt"
 	"math/big"
+	"runtime"
+	"sync"
+	"sync/atomic"
 	"testing"
 	"time"
 
@@ -474,5 +477,80 @@ func TestVerif_C19(t *testing.T) {
 		if s == 0 {
 			rec.Sample(map[string]any{"config": cfg, "first_events": evs[:15], "decisions": dec[:15]})
 		}
+	}
+	// Concurrent variant on a FROZEN clock (nothing is ever refilled, so the budget arithmetic is
+	// exact whatever the schedule): the abuser first spends its own allowance, which leaves the
+	// global bucket with exactly K tokens; then many goroutines keep sending for the abuser (every
+	// one of those requests is refused by the abuser's own limit) while K requests arrive from K
+	// fresh, compliant addresses. Refused traffic consumes no global capacity, so all K must be
+	// admitted - in every interleaving.
+	conc := evid.Pick(60, 1500)
+	for s := 0; s < conc && rec.Violations() < 10; s++ {
+		rng := evid.Rng(1919, int64(s))
+		own := 1 + rng.Intn(6)   // the abuser's own allowance (burst)
+		k := 1 + rng.Intn(5)     // compliant requests = what the global bucket has left
+		shape := s % 2           // 0: refused by the per-IP limit, 1: refused by a tight per-connection limit
+		cfg := RateLimiterConfig{GlobalRequestsPerSecond: own + k, PerIPRequestsPerSecond: 1, PerIPBurstSize: own, CleanupInterval: time.Hour,
+			ReadLargeOpsPerSecond: 1, WriteLargeOpsPerSecond: 1, ReaddirOpsPerSecond: 1, MountOpsPerMinute: 1}
+		if shape == 1 {
+			cfg.PerIPBurstSize, cfg.PerIPRequestsPerSecond = 1000000, 1000000
+			cfg.PerConnectionRequestsPerSecond, cfg.PerConnectionBurstSize = 1, own
+		}
+		vfClockSet(time.Unix(1_800_000_000, 0))
+		rl := NewRateLimiter(cfg)
+		spent := 0
+		for i := 0; i < own+3; i++ {
+			if rl.AllowRequest("10.0.0.1", "conn-abuser") {
+				spent++
+			}
+		}
+		if spent != own {
+			rec.Violate("C19/concurrent/setup-allowance-differs", fmt.Sprintf("abuser admitted %d times with an allowance of %d", spent, own), cfg)
+			continue
+		}
+		nab := 4 + rng.Intn(12)
+		var stop atomic.Bool
+		var refusedAbuser, admittedAbuser atomic.Int64
+		var wg sync.WaitGroup
+		for g := 0; g < nab; g++ {
+			wg.Add(1)
+			go func() {
+				defer wg.Done()
+				for !stop.Load() {
+					if rl.AllowRequest("10.0.0.1", "conn-abuser") {
+						admittedAbuser.Add(1)
+					} else {
+						refusedAbuser.Add(1)
+					}
+				}
+			}()
+		}
+		// let the flood get going (bounded spin on an observed count, no sleep decides anything)
+		for i := 0; i < 1_000_000 && refusedAbuser.Load() < int64(50*nab); i++ {
+			runtime.Gosched()
+		}
+		refusedCompliant := 0
+		for c := 0; c < k; c++ {
+			for y := rng.Intn(4); y > 0; y-- {
+				runtime.Gosched()
+			}
+			if !rl.AllowRequest(fmt.Sprintf("10.0.1.%d", c+1), fmt.Sprintf("conn-c%d", c)) {
+				refusedCompliant++
+			}
+		}
+		stop.Store(true)
+		wg.Wait()
+		rec.Eval(k + int(refusedAbuser.Load()))
+		rec.Add("concurrent_refused_abuser_requests", int(refusedAbuser.Load()))
+		if admittedAbuser.Load() > 0 {
+			rec.Violate("C19/concurrent/abuser-admitted-beyond-its-allowance", fmt.Sprintf("%d extra admissions on a frozen clock", admittedAbuser.Load()), cfg)
+		}
+		if refusedCompliant > 0 {
+			rec.Violate("C19/concurrent/client-within-limits-refused-while-admitted-traffic-within-global-limit",
+				fmt.Sprintf("frozen clock, global budget %d, abuser admitted %d times and then refused %d times by its own limit from %d goroutines: %d of %d requests from fresh compliant addresses were refused although only %d requests had ever been admitted",
+					own+k, own, refusedAbuser.Load(), nab, refusedCompliant, k, own+k-refusedCompliant),
+				map[string]any{"config": cfg, "abuser_goroutines": nab, "compliant_requests": k})
+		}
+		rec.Distinct(fmt.Sprintf("concurrent|refused-by=%s|abusers=%d|k=%d|compliant-refused=%v", []string{"per-ip", "per-connection"}[shape], nab/4*4, k, refusedCompliant > 0))
 	}
 }
